@@ -179,8 +179,10 @@ def make_frame(mods, r, kind, seed, a=1.0, b=1.0):
 
 def fit(mods, df, uc):
   m = mods['iroas'].TBRiROAS(use_cooldown=uc)
-  base.refit_prelude(m, df, iroas=True)
-  m.fit(df)
+  variant = base.semantic_variant(df)
+  base.refit_prelude(m, df, iroas=True, variant=variant)
+  fdf, kw, _ = base.relabel(df, variant)
+  m.fit(fdf, **kw)
   return m
 
 
